@@ -92,9 +92,8 @@ def specSeq {σ} (h : Spec.MDHash σ) (steps : List Step) : Option (List String)
       let bits? : Option (List Bool) := match l with
         | none => some (Spec.bytesToBits (toSpecBytes m))
         | some l =>
-          -- an explicit bitlen counts the bits of this piece only when nothing was fed before (crysp's `lastblock`
-          -- reads it as the total length); compared with the standard only in that case
-          if done = 0 ∧ 0 < l ∧ l ≤ 8 * m.length then some (Spec.takeBits l (toSpecBytes m)) else none
+          -- an explicit bitlen counts the bits of this piece
+          if 0 < l ∧ l ≤ 8 * m.length then some (Spec.takeBits l (toSpecBytes m)) else none
       bits?.map fun bits => (fmtSpec (h.hashFrom s done bits) :: acc).reverse
     | .fin _ _ :: _, _ => none
   match steps with
